@@ -15,9 +15,10 @@ theorem V.ind {motive : V → Prop}
     (set : ∀ xs, (∀ x ∈ xs, motive x) → motive (.set xs))
     (fset : ∀ xs, (∀ x ∈ xs, motive x) → motive (.fset xs))
     (obj : ∀ c xs, (∀ x ∈ xs, motive x) → motive (.obj c xs))
+    (sub : ∀ c b, motive b → motive (.sub c b))
     (v : V) : motive v :=
   V.rec (motive_1 := motive) (motive_2 := fun xs => ∀ x ∈ xs, motive x)
-    none bool int float str bytes list tuple dict set fset obj
+    none bool int float str bytes list tuple dict set fset obj sub
     (by intro x hx; cases hx)
     (by
       intro h t ih iht x hx
@@ -58,6 +59,7 @@ theorem sim_eq_of_setFree (a b : V) (hf : SetFree a) (h : Sim a b) : a = b := by
   | set xs ih => exact absurd hf (by simp [SetFree])
   | fset xs ih => exact absurd hf (by simp [SetFree])
   | obj c xs ih => cases h with | obj _ hs => rw [sims_eq ih ((SetFrees_iff xs).1 hf) hs]
+  | sub c b ih => cases h with | sub _ hs => rw [ih _ hf hs]
 
 theorem Rigids_iff (xs : List V) : Rigids xs ↔ ∀ x ∈ xs, Rigid x := by
   induction xs with
@@ -106,6 +108,7 @@ theorem sim_eq_of_rigid (a b : V) (hf : Rigid a) (h : Sim a b) : a = b := by
       subst this
       rw [sims_eq' ih ((Rigids_iff xs).1 hf.2) hs]
   | obj c xs ih => cases h with | obj _ hs => rw [sims_eq' ih ((Rigids_iff xs).1 hf) hs]
+  | sub c b ih => cases h with | sub _ hs => rw [ih _ hf hs]
 
 /-! ### `Sim` is reflexive -/
 theorem sims_refl_of {xs : List V} (ih : ∀ x ∈ xs, Sim x x) : Sims xs xs := by
@@ -127,6 +130,7 @@ theorem sim_refl (a : V) : Sim a a := by
   | set xs ih => exact .set (List.Perm.refl _) (sims_refl_of ih)
   | fset xs ih => exact .fset (List.Perm.refl _) (sims_refl_of ih)
   | obj c xs ih => exact .obj c (sims_refl_of ih)
+  | sub c b ih => exact .sub c ih
 
 /-- a permutation of the elements of a set is the same value -/
 theorem sim_set_of_perm {xs ys : List V} (h : xs.Perm ys) : Sim (.set xs) (.set ys) :=
@@ -202,6 +206,7 @@ theorem sim_symm (a b : V) (h : Sim a b) : Sim b a := by
       obtain ⟨w, hpw, hsw⟩ := sims_perm_follow hp.symm hs'
       exact .fset hpw hsw
   | obj c xs ih => cases h with | obj _ hs => exact .obj c (sims_symm_of ih hs)
+  | sub c b ih => cases h with | sub _ hs => exact .sub c (ih _ hs)
 
 theorem sims_trans_of {xs ys zs : List V} (ih : ∀ x ∈ xs, ∀ b c, Sim x b → Sim b c → Sim x c)
     (h1 : Sims xs ys) (h2 : Sims ys zs) : Sims xs zs := by
@@ -243,6 +248,7 @@ theorem sim_trans (a b c : V) (h1 : Sim a b) (h2 : Sim b c) : Sim a c := by
         obtain ⟨w, hpw, hsw⟩ := sims_perm_follow hp2 hs
         exact .fset (hp.trans hpw) (sims_trans_of (fun z hz => ih z ((hp.trans hpw).mem_iff.2 hz)) hsw hs2)
   | obj c xs ih => cases h1 with | obj _ hs => cases h2 with | obj _ hs2 => exact .obj c (sims_trans_of ih hs hs2)
+  | sub c b ih => cases h1 with | sub _ hs => cases h2 with | sub _ hs2 => exact .sub c (ih _ _ hs hs2)
 
 /-! ### insertion sort on a strict total order does not depend on the input order -/
 section sort
